@@ -269,7 +269,7 @@ func c09(c *Ctx) {
 	tsFile := ""
 	var doc map[string]*oas.Doc = map[string]*oas.Doc{}
 	for _, p := range []string{"ts-server", "openapiv3"} {
-		res := c.TB.Run(p, req, plugin.RunOpt{})
+		res := lab.RunDecoy(c.TB, p, req, plugin.RunOpt{})
 		c.R.Eval(1)
 		if !res.OK() {
 			continue
